@@ -60,6 +60,7 @@ def run(ctx) -> None:
   ctx.rule('R7', 'optional filters are present-tested with `is None`: an empty id set selects nothing, it is not "no filter"', 4)
   ctx.rule('R8', 'ListTrials hands the algorithm every stored trial: no truncated page without callers following next_page_token', 1)
   ctx.import_rules('C09', {'R3'}, 'R9', 'a stored INFEASIBLE trial reaches the algorithm as a completed one whatever its reason text (no truthiness of plain strings)')
+  ctx.import_rules('C01', {'R3'}, 'R12', 'the persisted policy state is loaded inside the operation lock of the request that uses it')
   ctx.import_rules('C10', {'R2'}, 'R11', 'the delivered-id list the policy persists is stored whole on every request (metadata merges drop nothing)')
   ctx.import_rules('C07', {'R6', 'R8'}, 'R10', 'the trials listed for the algorithm are exactly the stored trials of this study: copy-on-read, exact key filters')
   r1_base_policy(ctx)
